@@ -20,6 +20,7 @@ func hC12Source() string {
 		"@cmp = global i1 icmp ne (void () addrspace(1)* @h, void () addrspace(1)* null)\n" +
 		"@sel = global void () addrspace(1)* select (i1 true, void () addrspace(1)* @h, void () addrspace(1)* @k)\n" +
 		"@pi = global i64 ptrtoint (i32* @" + b + " to i64)\n" +
+		"@use = global i32 addrspace(3)* getelementptr (i32, i32 addrspace(3)* @asg, i32 0)\n@asg = addrspace(3) global i32 0\n" +
 		"declare void @h() addrspace(1)\ndeclare void @k() addrspace(1)\n" +
 		"define void @f() #1 {\n\tret void, !dbg !7\n}\ndeclare void @g() #0\n" +
 		"attributes #1 = { nounwind }\nattributes #0 = { noinline }\n" +
